@@ -390,6 +390,11 @@ def run(chk):
     chk.coverage.update(mstats)
     reproduced |= mrepro
 
+    xfails, xstats, xrepro = mf_oracle(chk, dbg, known)
+    fails += xfails
+    chk.coverage.update(xstats)
+    reproduced |= xrepro
+
     chk.coverage["rule"] = ("seeded generator: valid fragment functions (C01's generator, every integer anchored to i64) with, in 55% of them, one injected "
                             "violation of a documented rule (22 kinds: 14 the checker misses, 8 it enforces) + the 11 witnesses; for EVERY function: real "
                             "checker verdict vs model; for every ACCEPTED function: real lowering+emission, syn re-parse, and — unless the Coq predicates put it "
@@ -419,7 +424,18 @@ def replay(path):
     binary = vlib.build_harness("debug")
     for v in data["violations"]:
         d = v["detail"]
-        if "program" in d:
+        if "files" in d:
+            root = os.path.join(vlib.BUILD, "c02mf-replay-%d" % os.getpid()) + ("/src" if d.get("entry") == "src/" else "")
+            stem = next(k[:-5] for k in d["files"] if "/" not in k and "def main()" in d["files"][k])
+            try:
+                c_ok, b_ok, msg = mf_run(binary, root, stem, d["files"])
+                print("== multi-file project (%s)\n%s" % (d.get("unit"), d.get("case", "")))
+                print("check accepted:", c_ok, "build ok:", b_ok)
+                print("\n".join(mf_errors(msg))[:2500] if b_ok is False else (msg or "")[:600])
+            finally:
+                shutil.rmtree(os.path.join(vlib.BUILD, "c02mf-replay-%d" % os.getpid()), ignore_errors=True)
+                c01.clean_gen_target([stem])
+        elif "program" in d:
             print("== case\n" + d.get("case", ""))
             print(json.dumps(c01.replay_one(binary, d["program"], None, tag="c02r"), indent=1, default=str))
             if d.get("coq_case") and vlib.coq_build(["C02/Model.vo"])[0]:
@@ -429,3 +445,273 @@ def replay(path):
         else:
             print(json.dumps(d, indent=1)[:6000])
     return 0
+
+
+# ================================================================================================ multi-file projects
+# C02 quantifies over single- AND multi-file programs.  This family builds real multi-file projects with the real
+# `incan build` (collect_modules -> checker with imports -> ProjectGenerator::generate_nested -> cargo/rustc).  A project is
+# an entry file + several independent "units" (each unit owns one top-level directory / module name, so units do not
+# interact and many are packed into one cargo build):
+#   depth 1..4 x 1..3 sibling modules in the deepest directory (shared directory prefixes of length 0..3), branching
+#   prefixes (a/b/x + a/c/y, a/b/c/x + a/b/d/y), a module and a directory with the same stem, items of each kind used
+#   across files (function, model, enum, const), a module imported by two importers (diamond), nested modules importing
+#   other modules (absolute, `.x`, `..x`), import spellings `from a.b.c import f`, `from a::b::c import f`, `import a::b::c::f`
+#   (+ alias), entry file in the project root and in src/.
+# Oracle: every project `incan --check` accepts must build.  A failing packed project is attributed to units by the paths in
+# rustc's errors and each culprit unit is rebuilt alone (the failing input that is reported is that small project).
+
+MF_STYLES = ["dot", "colon", "item", "alias"]
+
+
+def mf_import(path, names, style):
+    """entry-side import lines + the local names bound"""
+    if style == "dot":
+        return ["from %s import %s" % (".".join(path), ", ".join(names))], list(names)
+    if style == "colon":
+        return ["from %s import %s" % ("::".join(path), ", ".join(names))], list(names)
+    if style == "item":
+        return ["import %s::%s" % ("::".join(path), n) for n in names], list(names)
+    return ["import %s::%s as %s_al" % ("::".join(path), n, n) for n in names], [n + "_al" for n in names]
+
+
+class MFUnit:
+    def __init__(self, key, files, imports, uses, klass=None):
+        self.key, self.files, self.imports, self.uses, self.klass = key, files, imports, uses, klass   # files: {relpath: text}
+
+    def top(self):
+        return sorted({p.split("/")[0].replace(".incn", "") for p in self.files})
+
+
+def mf_units(rng):
+    units = []
+    uid = [0]
+
+    def nm(prefix):
+        uid[0] += 1
+        return "%s%d" % (prefix, uid[0])
+
+    # depth x siblings
+    for depth in (1, 2, 3, 4):
+        for sib in (1, 2, 3):
+            dirs = [nm("d") for _ in range(depth - 1)]
+            files, imports, uses = {}, [], []
+            for k in range(sib):
+                m = nm("m")
+                f = nm("f")
+                c = rng.randint(2, 90)
+                files["/".join(dirs + [m]) + ".incn"] = "pub def %s(n: int) -> int:\n    return n + %d\n" % (f, c)
+                style = MF_STYLES[(depth + sib + k) % 4]
+                imp, loc = mf_import(dirs + [m], [f], style)
+                imports += imp
+                uses.append("println(%s(1))" % loc[0])
+            units.append(MFUnit("depth=%d siblings=%d prefix=%d" % (depth, sib, depth - 1 if sib > 1 else 0), files, imports, uses))
+    # branching prefixes
+    for depth, share in ((3, 1), (4, 2), (4, 1), (3, 2)):
+        common = [nm("d") for _ in range(share)]
+        files, imports, uses = {}, [], []
+        for k in range(2 if (depth, share) != (3, 2) else 3):
+            rest = [nm("d") for _ in range(depth - 1 - share)]
+            m, f = nm("m"), nm("f")
+            files["/".join(common + rest + [m]) + ".incn"] = "pub def %s() -> int:\n    return %d\n" % (f, rng.randint(2, 90))
+            imp, loc = mf_import(common + rest + [m], [f], MF_STYLES[(k + depth) % 2])
+            imports += imp
+            uses.append("println(%s())" % loc[0])
+        units.append(MFUnit("branching depth=%d shared-prefix=%d modules=%d" % (depth, share, len(files)), files, imports, uses))
+    # a module and a directory with the same stem
+    d, s, m, f1, f2 = nm("d"), nm("s"), nm("m"), nm("f"), nm("f")
+    units.append(MFUnit("module and directory with the same stem",
+                        {"%s/%s.incn" % (d, s): "pub def %s() -> int:\n    return 5\n" % f1,
+                         "%s/%s/%s.incn" % (d, s, m): "pub def %s() -> int:\n    return 6\n" % f2},
+                        ["from %s.%s import %s" % (d, s, f1), "from %s.%s.%s import %s" % (d, s, m, f2)],
+                        ["println(%s())" % f1, "println(%s())" % f2]))
+    s2, m2, f3, f4 = nm("s"), nm("m"), nm("f"), nm("f")
+    units.append(MFUnit("top-level module and directory with the same stem",
+                        {"%s.incn" % s2: "pub def %s() -> int:\n    return 5\n" % f3,
+                         "%s/%s.incn" % (s2, m2): "pub def %s() -> int:\n    return 6\n" % f4},
+                        ["from %s import %s" % (s2, f3), "from %s.%s import %s" % (s2, m2, f4)],
+                        ["println(%s())" % f3, "println(%s())" % f4]))
+    # items of each kind across files (flat and nested)
+    for depth in (1, 3):
+        dirs = [nm("d") for _ in range(depth - 1)]
+        m = nm("m")
+        M, E, K, f = nm("Mo"), nm("En"), nm("KC").upper(), nm("f")
+        text = ("pub model %s:\n    a: int\n    b: int\n\npub enum %s:\n    Ci(int)\n    Em\n\npub const %s: int = 41\n\n"
+                "pub def %s(o: %s) -> int:\n    return o.a + o.b\n" % (M, E, K, f, M))
+        for kind, names, use in (("function+model", [M, f], ["o = %s(a=1, b=2)" % M, "println(%s(o))" % f]),
+                                 ("enum", [E], ["e = %s.Ci(3)" % E, "match e:", "    case %s.Ci(v):" % E, "        println(v)", "    case _:", "        println(0)"]),
+                                 ("const", [K], ["println(%s + 1)" % K])):
+            # one unit per kind: its own copy of the module under its own directory
+            dd = [nm("d")] + dirs
+            mm = nm("m")
+            imp, _ = mf_import(dd + [mm], names, "dot" if depth == 1 else "colon")
+            units.append(MFUnit("item kind=%s depth=%d" % (kind, depth + 1), {"/".join(dd + [mm]) + ".incn": text}, imp, use))
+    # diamond: p and q import r; the entry imports all three
+    for depth in (1, 2):
+        d = [nm("d")] if depth == 2 else []
+        r, p, q, fr, fp, fq = nm("m"), nm("m"), nm("m"), nm("f"), nm("f"), nm("f")
+        pre = ".".join(d + [""]) if d else ""
+        files = {"/".join(d + [r]) + ".incn": "pub def %s() -> int:\n    return 7\n" % fr,
+                 "/".join(d + [p]) + ".incn": "from %s%s import %s\n\npub def %s() -> int:\n    return %s() + 1\n" % (pre, r, fr, fp, fr),
+                 "/".join(d + [q]) + ".incn": "from %s%s import %s\n\npub def %s() -> int:\n    return %s() + 2\n" % (pre, r, fr, fq, fr)}
+        units.append(MFUnit("diamond depth=%d (absolute imports inside modules)" % depth, files,
+                            ["from %s%s import %s" % (pre, x, y) for x, y in ((p, fp), (q, fq), (r, fr))],
+                            ["println(%s() + %s() + %s())" % (fp, fq, fr)]))
+    # relative imports inside nested modules
+    d1, d2, a, b, c, fa, fb, fc = nm("d"), nm("d"), nm("m"), nm("m"), nm("m"), nm("f"), nm("f"), nm("f")
+    units.append(MFUnit("relative import `from .x` (sibling) inside a nested module",
+                        {"%s/%s.incn" % (d1, a): "pub def %s() -> int:\n    return 3\n" % fa,
+                         "%s/%s.incn" % (d1, b): "from .%s import %s\n\npub def %s() -> int:\n    return %s() + 1\n" % (a, fa, fb, fa)},
+                        ["from %s.%s import %s" % (d1, b, fb)], ["println(%s())" % fb]))
+    d3, d4, a2, c2, fa2, fc2 = nm("d"), nm("d"), nm("m"), nm("m"), nm("f"), nm("f")
+    units.append(MFUnit("relative import `from ..x` (parent directory) inside a nested module",
+                        {"%s/%s.incn" % (d3, a2): "pub def %s() -> int:\n    return 3\n" % fa2,
+                         "%s/%s/%s.incn" % (d3, d4, c2): "from ..%s import %s\n\npub def %s() -> int:\n    return %s() + 1\n" % (a2, fa2, fc2, fa2)},
+                        ["from %s.%s.%s import %s" % (d3, d4, c2, fc2)], ["println(%s())" % fc2]))
+    return units
+
+
+def mf_project(units, stem):
+    files = {}
+    imports, body = [], []
+    for u in units:
+        files.update(u.files)
+        imports += u.imports
+        body += u.uses
+    files[stem + ".incn"] = "\n".join(imports) + "\n\n\ndef main() -> None:\n" + "\n".join("    " + l for l in body) + "\n"
+    return files
+
+
+def mf_write(root, files):
+    for rel, text in files.items():
+        p = os.path.join(root, rel)
+        os.makedirs(os.path.dirname(p), exist_ok=True)
+        open(p, "w").write(text)
+
+
+def mf_run(binary, root, stem, files):
+    """(check verdict, build verdict, message) for one project written under `root` (the entry's directory)"""
+    shutil.rmtree(root, ignore_errors=True)
+    mf_write(root, files)
+    out = vlib.run_harness(binary, ["run", "c01", "check"], "%s\t%s.incn\n" % (root, stem), timeout=600)
+    line = next((l for l in out.split("\n") if l.startswith("@@ ")), "@@ ? fail no verdict")
+    chk_ok = line.split(" ", 3)[2] == "ok"
+    if not chk_ok:
+        return False, None, line[:600]
+    ok, msg, _ = c01.build_programs(binary, root, [(stem, files[stem + ".incn"])])[stem]
+    return True, ok, msg
+
+
+MF_KNOWN = {"module and directory with the same stem": "module-dir-same-stem",
+            "top-level module and directory with the same stem": "module-dir-same-stem",
+            "relative import `from ..x` (parent directory) inside a nested module": "relative-parent-import"}
+
+
+def mf_describe(u, stem, layout):
+    files = mf_project([u], stem)
+    pre = "" if layout == "root" else "src/"
+    return "\n".join("# ---- %s%s\n%s" % (pre, rel, text) for rel, text in sorted(files.items()))
+
+
+def mf_errors(msg):
+    return [b for b in re.split(r"\n(?=error|warning)", msg or "") if b.startswith("error") and "could not compile" not in b and "aborting" not in b]
+
+
+def mf_oracle(chk, binary, known):
+    """multi-file build family. Returns (fails, stats, reproduced known ids)."""
+    units = mf_units(chk.rng)
+    fails, stats, reproduced = [], {}, set()
+    root = os.path.join(vlib.BUILD, "c02mf-%d" % os.getpid())
+    tagp = "c02mf%dp%d" % (chk.seed % 100000, os.getpid() % 100000)
+    stems = []
+    demanded = [u for u in units if not (MF_KNOWN.get(u.key) in known)]
+    excused = [u for u in units if MF_KNOWN.get(u.key) in known]
+    stats["multifile_units"] = {u.key: len(u.files) for u in units}
+    stats["multifile_units_excused_by_known_class"] = [u.key for u in excused]
+    owner = {}
+    for u in units:
+        for t in u.top():
+            owner[t] = u
+
+    def alone(u, layout, n):
+        stem = "%su%d%s" % (tagp, n, layout[0])
+        stems.append(stem)
+        d = os.path.join(root, "u%d%s" % (n, layout[0])) + ("" if layout == "root" else "/src")
+        return (stem,) + mf_run(binary, d, stem, mf_project([u], stem))
+
+    try:
+        n_built = 0
+        # every unit alone through the real multi-file `--check` (no cargo): only accepted units are packed and demanded
+        lines, dirs = [], {}
+        for i, u in enumerate(demanded):
+            d0 = os.path.join(root, "chk%d" % i)
+            mf_write(d0, mf_project([u], "e%d" % i))
+            lines.append("%s\te%d.incn" % (d0, i))
+        out = vlib.run_harness(binary, ["run", "c01", "check"], "\n".join(lines) + "\n", timeout=900)
+        verdicts = [l for l in out.split("\n") if l.startswith("@@ ")]
+        if len(verdicts) != len(demanded):
+            raise vlib.Infra("c02 multi-file check: %d verdicts for %d units" % (len(verdicts), len(demanded)))
+        rejected = [(u.key, v[:300]) for u, v in zip(demanded, verdicts) if v.split(" ", 3)[2] != "ok"]
+        demanded = [u for u, v in zip(demanded, verdicts) if v.split(" ", 3)[2] == "ok"]
+        stats["multifile_units_rejected_by_check"] = [k for k, _ in rejected]
+        if rejected:
+            chk.notes.append({"note": "multi-file units rejected by `incan --check` (not judged by C02)", "units": rejected[:6]})
+        for layout in ("root", "src"):
+            stem = "%s%s" % (tagp, layout[0])
+            stems.append(stem)
+            d = os.path.join(root, "all-" + layout) + ("" if layout == "root" else "/src")
+            c_ok, b_ok, msg = mf_run(binary, d, stem, mf_project(demanded, stem))
+            n_built += 1
+            suspects = []
+            if not c_ok:
+                # which unit does the checker reject?  (cheap: no cargo involved)
+                chk.notes.append({"note": "multi-file project rejected by --check (entry in %s)" % layout, "message": (msg or "")[:600]})
+                # judge every unit on its own instead
+                suspects = list(demanded)
+            elif b_ok:
+                for u in demanded:
+                    chk.count_case(("multifile", layout, u.key, tuple(sorted(u.files.items()))), nontrivial=True)
+                stats["multifile_units_built(entry in %s)" % layout] = len(demanded)
+                continue
+            else:
+                errs = mf_errors(msg)
+                tops = set()
+                for b in errs:
+                    for m in re.finditer(r"src/(\w+)", b):
+                        tops.add(m.group(1))
+                    for m in re.finditer(r"`(\w+)`", b):
+                        tops.add(m.group(1))
+                suspects = [u for u in demanded if set(u.top()) & tops] or list(demanded)
+            seen = set()
+            for i, u in enumerate(demanded):
+                if u not in suspects or u.key in seen or len(seen) >= 10:
+                    continue
+                seen.add(u.key)
+                stem1, c1, b1, m1 = alone(u, layout, i)
+                n_built += 1
+                if c1 and b1 is False:
+                    fails.append({"case": mf_describe(u, stem1, layout), "unit": u.key, "entry": "project root" if layout == "root" else "src/",
+                                  "files": mf_project([u], stem1), "accepted_by": "real `incan --check` (check_file, imports included)", "stage": "rustc / cargo",
+                                  "actual": "\n".join(mf_errors(m1))[:2500] or (m1 or "")[-1500:],
+                                  "why": "the checker accepts this multi-file project, code generation succeeds, the generated Cargo project does not build"})
+            if c_ok and not fails:
+                fails.append({"case": "packed project of %d units (entry in %s)" % (len(demanded), layout), "files": mf_project(demanded, stem), "stage": "rustc / cargo",
+                              "accepted_by": "real `incan --check`", "actual": "\n".join(mf_errors(msg))[:2500],
+                              "why": "the checker accepts this multi-file project, code generation succeeds, the generated Cargo project does not build "
+                                     "(every unit builds on its own: interaction between units)"})
+        # ---- listed classes: one witness unit each, alone
+        done = set()
+        for i, u in enumerate(excused):
+            fid = MF_KNOWN[u.key]
+            if fid in done:
+                continue
+            stem1, c1, b1, m1 = alone(u, "root", 100 + i)
+            n_built += 1
+            if c1 and b1 is False:
+                reproduced.add(fid)
+                done.add(fid)
+        stats["multifile_cargo_builds"] = n_built
+    finally:
+        shutil.rmtree(root, ignore_errors=True)
+        c01.clean_gen_target(stems)
+    vlib.log("[c02] multi-file family: %d units (%d demanded), %d failures" % (len(units), len(demanded), len(fails)))
+    return fails, stats, reproduced
